@@ -32,6 +32,18 @@ const skip = "skip"
 func allocBound(n int) uint64 { return uint64(512*n + 4*65536 + 16384) }
 
 func oracleC01(op string, args []string) string {
+	if op == "dec2x" || op == "dec2" {
+		var r string
+		if op == "dec2x" {
+			r = withTimeout(func() string { return safely(func() string { return opDec2x(args) }) })
+		} else {
+			r = withTimeout(func() string { return safely(func() string { return opDec2(args) }) })
+		}
+		if r == "panic" || r == "hang" {
+			return "FAIL " + r + " on the second decode into the same object"
+		}
+		return "pass"
+	}
 	if op != "dec" || len(args) != 2 {
 		return skip
 	}
@@ -88,6 +100,9 @@ func oracleC01(op string, args []string) string {
 // ---- C02: dec(enc m) = m for well-formed m (enc lines carry the fields) ----
 
 func oracleC02(op string, args []string) string {
+	if op == "dec2" && len(args) == 3 {
+		return oracleC05("dec2", args)
+	}
 	if op != "enc" || len(args) != 4 || !strings.HasPrefix(args[1], "hdr=") {
 		return skip
 	}
@@ -185,6 +200,11 @@ func oracleC03(op string, args []string) string {
 		return "FAIL re-encode error: " + err.Error()
 	}
 	b1c := append([]byte{}, b1...)
+	// re-encoding a batch: the bytes returned for this message must still be there after another message was encoded
+	encodeOther()
+	if !bytes.Equal(b1, b1c) {
+		return "FAIL the re-encoding changed after another message was encoded: now " + hexs(b1) + ", was " + hexs(b1c)
+	}
 	m2, o2 := decodeEntry("plain", &b1c)
 	if m2 == nil {
 		return "FAIL re-encoding does not decode: " + o2 + " b1=" + hexs(b1)
@@ -312,7 +332,12 @@ func oracleC05(op string, args []string) string {
 			return skip
 		}
 		b, _ := unhex(args[2])
-		_, fresh := decodeEntry(args[0], &b)
+		var fresh string
+		if _, isMsg := msgTypes[args[0]]; isMsg {
+			fresh = opDec([]string{args[0], args[2]})
+		} else {
+			_, fresh = decodeEntry(args[0], &b)
+		}
 		if got != fresh {
 			return "FAIL decoding into a recycled Message differs from a fresh decode: " + got + " (fresh: " + fresh + ")"
 		}
@@ -433,6 +458,30 @@ func scribble(v reflect.Value) {
 
 func oracleC10(op string, args []string) string {
 	switch op {
+	case "dec2":
+		if len(args) != 3 {
+			return skip
+		}
+		pt, isMsg := msgTypes[args[0]]
+		a, ok1 := unhex(args[1])
+		b, ok2 := unhex(args[2])
+		if !isMsg || !ok1 || !ok2 {
+			return skip
+		}
+		// decode A, keep a copy of the struct (it holds the slices of the first result), decode B into the same struct:
+		// what the first decode returned must still read the same — every decode writes into memory of its own
+		body := reflect.New(pt.Elem())
+		if res := body.MethodByName("Decode" + args[0]).Call([]reflect.Value{reflect.ValueOf(&a)}); !res[0].IsNil() {
+			return skip
+		}
+		first := reflect.New(pt.Elem())
+		first.Elem().Set(body.Elem())
+		before := showBody(args[0], first.Elem())
+		body.MethodByName("Decode" + args[0]).Call([]reflect.Value{reflect.ValueOf(&b)})
+		if after := showBody(args[0], first.Elem()); after != before {
+			return "FAIL the result of an earlier decode changed when the same struct was decoded into again (storage reused): " + after
+		}
+		return "pass"
 	case "dec":
 		if len(args) != 2 || args[1] == "nil" {
 			return skip
@@ -530,6 +579,13 @@ func oracleC10(op string, args []string) string {
 			}(); !known {
 				return skip // ill-formed (header names an absent body)
 			}
+			if e1 == nil {
+				snap := append([]byte{}, out1...)
+				encodeOther()
+				if !bytes.Equal(out1, snap) {
+					return "FAIL the encoding changed after another message was encoded (result shares storage with later results)"
+				}
+			}
 			out2, e2 = m.PlainNasEncode()
 			if e1 == nil {
 				// the family-level encoders take the caller's buffer: what is already in it stays, the message is appended
@@ -564,4 +620,14 @@ func oracleC10(op string, args []string) string {
 		return "pass"
 	}
 	return skip
+}
+
+// encodeOther encodes an unrelated message (twice) through PlainNasEncode
+func encodeOther() {
+	other := nas.NewMessage()
+	ob := []byte{0x7e, 0x00, 0x55}
+	if other.PlainNasDecode(&ob) == nil {
+		_, _ = other.PlainNasEncode()
+		_, _ = other.PlainNasEncode()
+	}
 }
